@@ -14,7 +14,7 @@ RULE = (
     "within <=1 deviation of the default over (texture kind(5), volume vector(2), n_grains(4), "
     "parameter set(14)); update alphabet = 6 flows (simple shear, pure shear, generic 3-D with "
     "vorticity, generic with trace, time-dependent, position-dependent along a pathline) x strain "
-    "increment {0.1, 0.5} + rigid-body rotation + zero gradient + shear fading into spin (15 letters); ALL sequences to depth 2 (quick) / 3 (thorough) from every root. Long "
+    "increment {0.1, 0.5} + rigid-body rotation + zero gradient + shear fading into spin + the other five axis-aligned simple shears (20 letters; axis-aligned textures under every shear plane hit the exact-zero slip guards); ALL sequences to depth 2 (quick) / 3 (thorough) from every root. Long "
     "chains: a span of strain 1 split into k in {1,2,5,10,25,50,100} uniform updates and into all 7 "
     "compositions with <=3 parts on a quarter grid. Default-constructed minerals (3500 grains) built "
     "twice per seed. The invariant is evaluated on every stored snapshot after every transition, "
@@ -27,7 +27,7 @@ ASSUMPTIONS = [
     "an update that raises appends nothing and is not expanded (counted in notes.rejected_updates); C07 decides which updates may raise",
     "n_grains <= 8 in histories (3500 for the default-constructed mineral); banded-Jacobian path (n > 4632) outside the bound",
 ]
-BOUND = {"quick": "history depth 2, 15 update letters, <=1 root deviation", "thorough": "history depth 3, <=2 root deviations"}
+BOUND = {"quick": "history depth 2, 20 update letters, <=1 root deviation", "thorough": "history depth 3, <=2 root deviations"}
 CHUNK = 1
 
 
@@ -42,7 +42,7 @@ def warmup():
 # update alphabet: the 12 shared letters plus a rigid-body rotation (finite L with D = 0)
 # and a zero gradient -- both are finite velocity gradients and hit the guards of the
 # non-dimensionalisation (found missing by seeded change C01/rigid-rotation-NaN)
-LETTERS = H.STEP_LETTERS + [("rigid", 0.5), ("zero", 0.5), ("tospin", 0.5)]
+LETTERS = H.STEP_LETTERS + [("rigid", 0.5), ("zero", 0.5), ("tospin", 0.5)] + [(f, 0.5) for f in ("ss_xy", "ss_yx", "ss_yz", "ss_zx", "ss_zy")]
 GETREG = {
     "disl_yield": lambda t, x: 4 if int(t * 10) % 2 == 0 else 6,
     "disl_then_null": lambda t, x: 4 if t < 0.3 else 7,
@@ -115,6 +115,9 @@ def check_transition(res, key, parent, child, n, hist):
     dev = np.abs(np.einsum("gij,gkj->gik", mc.orientations[-1], mc.orientations[-1]) - np.eye(3)).max()
     if np.isfinite(dev):
         res["notes"]["max_orthonormality_dev"] = max(res["notes"].get("max_orthonormality_dev", 0.0), float(dev))
+        if key.get("reg") != "diff":  # margin to the stated bound, outside the known finding
+            r = float(dev) / H.ode_bound(child.N, child.strain)
+            res["notes"]["max_ratio_orthonormality_dev_to_bound_excl_diffusion"] = max(res["notes"].get("max_ratio_orthonormality_dev_to_bound_excl_diffusion", 0.0), r)
 
 
 def run_case(key):
@@ -162,6 +165,8 @@ def run_case(key):
     if key["part"] == "hist":
         ns, nt = H.bfs(root, LETTERS, key["depth"], step)
         res["states"], res["trans"] = ns, nt
+    if H.LAST["budget_stop"]:
+        res["notes"]["cases_cut_at_cpu_budget"] = res["notes"].get("cases_cut_at_cpu_budget", 0) + 1
     else:  # long chains over a span of strain 1 (unit strain rate => time span 1)
         fl = key["flow"]
         nt = 0
